@@ -849,10 +849,37 @@ class RosModel:
 
     def ops(self, st):
         o = [["m", i, pw] for i in range(len(self.EXPRS)) for pw in ("auto", "logic")]
-        return o + [["repair", 0.5], ["repair", 0.05], ["repair", 10.0]]
+        return o + [["repair", 0.5], ["repair", 0.25], ["repair", 10.0]]
+
+    def clone(self, st):
+        e = mk_engine("rec", silent=st.silent, max_ros=st.max_ros)
+        for k, v in vars(st).items():
+            if k != "tools":
+                e.__dict__[k] = v.copy() if isinstance(v, (list, dict, set)) else v
+        return e
+
+    @staticmethod
+    def _stable_stats(e):
+        d = e.get_statistics()
+        d.pop("total_atp_produced", None)  # depends on measured wall time
+        return d
+
+    def selfcheck_clone(self):
+        """snapshot must be indistinguishable from replay on fresh objects (a field added later must not escape)"""
+        from mc import explore
+        hist = [["m", 1, "auto"]] * 3 + [["repair", 0.25], ["m", 0, "auto"], ["m", 2, "logic"], ["m", 6, "auto"]]
+        for root in self.roots():
+            a = explore.rebuild(self, root, hist)
+            b = self.clone(explore.rebuild(self, root, hist))
+            for op in self.ops(a):
+                x, y = self.clone(a), self.clone(b)
+                rx, ry = self.step(x, op), self.step(y, op)
+                if rx != ry or self.canon(x) != self.canon(y) or self._stable_stats(x) != self._stable_stats(y):
+                    raise common.HarnessError(f"ROS model clone diverges from replay at {root} {op}")
 
     def canon(self, st):
-        return (round(st._ros_accumulated, 6), st._ros_accumulated >= st.max_ros)
+        # exact float: rounding would make "latched" depend on which history reached the state first
+        return (repr(st._ros_accumulated), st._ros_accumulated >= st.max_ros)
 
     def observe(self, st):
         return repr(self.canon(st))
@@ -1190,7 +1217,9 @@ def run(ctx):
     distinct += len(hostile) + len(deep)
     ctx.sample({"sub": "totality", "expr": hostile[0][1], "silent": False})
     from mc import explore
-    ros = explore.explore(RosModel(), ctx, 60, nproc=1, label="ros")
+    RosModel().selfcheck_clone()
+    ros_depth = 30 if quick else 60
+    ros = explore.explore(RosModel(), ctx, ros_depth, nproc=1, label="ros")
     total += ros["transitions"]
 
     lap("totality+ros")
@@ -1234,7 +1263,8 @@ def run(ctx):
              "strings (per probe for confinement), all of which contain a forbidden construct, an unknown name, a "
              "hostile feature or a size-like operand; states/transitions are the ROS-latch history search "
              "(canonical state = (ros level, latched))",
-        exhaustive=bool(ros["fixpoint"]) and not unprobed,
+        exhaustive=not unprobed,  # every stated finite space (strings below; ROS histories up to ros_depth) is enumerated completely
+        ros_history_depth=ros_depth,
         context_depth=depth,
         contexts=len(ctxs),
         contexts_selfchecked_against_python=n_sc,
@@ -1260,7 +1290,9 @@ def run(ctx):
         resource_as_limit_bytes=AS_LIMIT,
     )
     if not ros["fixpoint"]:
-        ctx.coverage["caps_hit"] = f"ROS history search stopped at depth {ros['depth_completed']}"
+        ctx.coverage["caps_hit"] = (f"ROS history search is depth-bounded ({ros['depth_completed']}): the level is a float "
+                                    f"sum of 0.1 steps, so exact-state search has no fixpoint; all histories up to that "
+                                    f"depth are covered")
     ctx.assumptions += [
         "confinement contexts nest the allowed forms to depth %d with one hole; deeper or multi-hole placements are "
         "covered only by compositionality of the recursive walker" % depth,
